@@ -1519,8 +1519,16 @@ def _match_method(which):
     return f
 
 
+def _re(fn):
+    def f(interp, c, args, kw):
+        from . import regex_model
+        return getattr(regex_model, fn)(interp, c, args, kw)
+    return f
+
+
 _BUILTINS = {
     're.escape': _b_re_escape, 're.finditer': _b_re_finditer,
+    're.search': _re('re_search'), 're.match': _re('re_match'), 're.fullmatch': _re('re_fullmatch'),
     'len': _b_len, 'isinstance': _b_isinstance, 'hasattr': _b_hasattr, 'getattr': _b_getattr, 'str': _b_str,
     'repr': _b_repr, 'int': _b_int, 'bool': _b_bool, 'list': _b_list, 'tuple': _b_tuple, 'dict': _b_dict,
     'sorted': _b_sorted, 'reversed': _b_reversed, 'range': _b_range, 'enumerate': _b_enumerate, 'zip': _b_zip,
@@ -1884,6 +1892,19 @@ def tuple_method(interp, t, name, args, kwargs):
 
 
 def call_method(interp, recv, name, args, kwargs):
+    from . import regex_model as _rm
+    if isinstance(recv, _rm.MatchObj):
+        if name == 'group':
+            if len(args) > 1:
+                return tuple(recv.group(a) for a in args)
+            return recv.group(*args)
+        if name == 'groups':
+            return tuple(recv.group(i) for i in range(1, recv.ngroups + 1))
+        if name in ('start', 'end'):
+            g = args[0] if args else 0
+            sp = recv.span if g == 0 else recv.groups.get(g, (-1, -1))
+            return sp[0] if name == 'start' else sp[1]
+        raise Unsupported('match.%s' % name)
     if isinstance(recv, PObj) and (recv.cls == 'AnsiStr' or interp.p.is_subclass(recv.cls, 'str')):
         return str_method(interp, recv.attrs['__payload__'], name, args, kwargs)
     if isinstance(recv, PObj) and recv.cls.startswith('__'):
